@@ -31,9 +31,12 @@ def run_one(m, with_tests):
         shutil.copytree('/repo', dst, ignore=shutil.ignore_patterns('.git', '__pycache__', '*.egg-info'))
         fp = os.path.join(dst, path)
         src = open(fp).read()
-        if src.count(old) < 1:
-            return (pid, name, 'STALE', 'pattern not found in %s' % path)
-        open(fp, 'w').write(src.replace(old, new, 1))
+        edits = list(zip(old, new)) if isinstance(old, (list, tuple)) else [(old, new)]
+        for o, n in edits:
+            if src.count(o) < 1:
+                return (pid, name, 'STALE', 'pattern not found in %s' % path)
+            src = src.replace(o, n, 1)
+        open(fp, 'w').write(src)
         tests = ''
         if with_tests:
             p = subprocess.run(['/venv/bin/python', '-m', 'pytest', '-q', '-p', 'no:cacheprovider', '-x'],
